@@ -137,7 +137,7 @@ def run(tier, r):
     nontrivial = explored = 0
     for i in range(ncases):
         case = gen(r, tier)
-        v, info = check_case(case)
+        v, info = oc.safe(check_case, PROP)(case)
         vs += v
         explored += info.get("injected", 0)
         oc.bump(stats, "problems")
